@@ -1,11 +1,116 @@
-"""Property-specific native replay adapters (filled in per property)."""
-ADAPTERS = {}
+"""Native replay: builds /verif/replay against the staged copy of /repo and runs cases.
+
+The replay crate links the *real* library (no cfg(kani), no stubs) with the
+repository's own toolchain, in the dev profile and in --release.
+"""
+import json
+import os
+import shutil
+import subprocess
+
+from .stage import Stage, VERIF
+
+_built = {}
+
+
+def build(stage, release=False):
+    key = (stage.root, release)
+    if key in _built:
+        return _built[key]
+    rdir = os.path.join(stage.root, "replay")
+    if not os.path.exists(rdir):
+        shutil.copytree(os.path.join(VERIF, "replay"), rdir)
+        with open(os.path.join(rdir, "Cargo.toml"), "w") as f:
+            f.write('[package]\nname = "vreplay"\nversion = "0.0.0"\nedition = "2024"\npublish = false\n\n'
+                    '[workspace]\n\n[dependencies]\nnaijascript = { path = "%s" }\n\n'
+                    '[profile.release]\ndebug-assertions = false\noverflow-checks = false\n' % stage.crate)
+        shutil.copy(os.path.join(stage.crate, "rust-toolchain.toml"), rdir)
+        lock = os.path.join(stage.crate, "Cargo.lock")
+        if os.path.exists(lock):
+            shutil.copy(lock, rdir)
+    env = dict(os.environ)
+    env["CARGO_NET_OFFLINE"] = "true"
+    env["CARGO_TERM_COLOR"] = "never"
+    cmd = ["cargo", "build", "--offline"] + (["--release"] if release else [])
+    p = subprocess.run(cmd, cwd=rdir, env=env, stdout=subprocess.PIPE, stderr=subprocess.STDOUT, text=True)
+    if p.returncode != 0:
+        raise RuntimeError("replay crate build failed:\n" + p.stdout[-3000:])
+    binp = os.path.join(rdir, "target", "release" if release else "debug", "vreplay")
+    _built[key] = binp
+    return binp
+
+
+def run_case(stage, args, release=False, stdin=None, timeout=30):
+    """Returns (rc, output).  rc < 0: killed by a signal; 124: timeout."""
+    binp = build(stage, release)
+    try:
+        p = subprocess.run([binp] + list(args), input=stdin, stdout=subprocess.PIPE, stderr=subprocess.STDOUT,
+                           timeout=timeout)
+        return p.returncode, p.stdout.decode(errors="replace")
+    except subprocess.TimeoutExpired as e:
+        return 124, (e.stdout or b"").decode(errors="replace") + "\n[timeout]"
+
+
+def run_script(stage, text, mode="analysis", release=False, stdin=None, timeout=30):
+    path = os.path.join(stage.root, "replay_script.ns")
+    with open(path, "wb") as f:
+        f.write(text if isinstance(text, bytes) else text.encode())
+    return run_case(stage, ["script", path, mode], release=release, stdin=stdin, timeout=timeout)
+
+
+def crashed(rc):
+    return rc < 0 or rc in (101, 134, 139, 124)
+
+
+# ---------------------------------------------------------------------------
+# known findings: each entry's "replay" names a case here
+def _known_c11_align(stage, k):
+    for rel in (False, True):
+        rc, out = run_case(stage, ["c11-align", "16"], release=rel)
+        if rc != 1:
+            return False, "c11-align rc=%d %s" % (rc, out.strip()[-200:])
+    return True, out.strip()
+
+
+KNOWN = {"c11-align": _known_c11_align}
 
 
 def confirm_known(stage, prop, h, k):
-    return False, "no native adapter for %s" % (k.get("key"),)
+    fn = KNOWN.get(k.get("replay", {}).get("case"))
+    if fn is None:
+        return False, "no native case for %s" % (k.get("key"),)
+    return fn(stage, k)
+
+
+# ---------------------------------------------------------------------------
+from .replay import Outcome  # noqa: E402
+
+
+def adapter_c11_align(stage, prop, h, r, unlisted, outdir):
+    ok, detail = _known_c11_align(stage, None)
+    path = os.path.join(outdir, "%s_%s.json" % (prop.id, h.name))
+    json.dump({"property": prop.id, "kind": "native-case", "case": ["c11-align", "16"], "expect_rc": 1,
+               "harness": h.name, "detail": detail}, open(path, "w"), indent=1)
+    return Outcome(ok, path, detail)
+
+
+ADAPTERS = {"c11_align": adapter_c11_align}
 
 
 def replay_file(art, path):
+    if art.get("kind") == "native-case":
+        stage = Stage(art["property"] + ".replay")
+        try:
+            worst = 0
+            for rel in (False, True):
+                rc, out = run_case(stage, art["case"], release=rel, stdin=(art.get("stdin") or "").encode() or None)
+                print(out)
+                if rc == art.get("expect_rc", 1) or crashed(rc):
+                    worst = 1
+            if worst:
+                print("VIOLATION property=%s replay=%s" % (art["property"], path))
+            return worst
+        finally:
+            stage.cleanup()
     print("unknown replay kind", art.get("kind"))
     return 2
